@@ -400,7 +400,9 @@ def binary_rule(rep, prog, cfg):
     if len(bs) != 1:
         rep.fail(rule + ".anchor", cfg, PARSE, "function not found")
         return
-    b = bs[0]
+    # cutting the payload may be a private helper next to the builder: spliced in (A12); the transitions themselves stay calls
+    machine = {RB + m for m in ("field", "binary", "finish_frame", "finish", "error")}
+    b = inlined(prog, bs[0], same_impl_helpers(bs[0], module=True, exclude=machine))
     fl = Flow(b)
     g = Cfg(b)
     bins = [(bb, t) for bb, t in b.calls() if RB + "binary" in callee_names(t)]
@@ -414,11 +416,20 @@ def binary_rule(rep, prog, cfg):
     from_split = any(x[0] == "call" and "bytes::bytes_mut::BytesMut::split_to" in callee_names(b.blocks[x[1]]["t"]) for x in leaves)
     rep.check(from_split, rule, cfg + "/payload is the split-off message", b.loc(b.blocks[bbb]["ts"]),
               "the binary payload handed to the builder is not the message buffer split off the receive buffer")
-    root = None
-    for bb, i, s in b.stmts():
-        if s["k"] == "assign" and s["place"]["l"] == msg and s["rv"]["k"] == "use":
-            root = op_local(s["rv"]["op"])
-    msg_root = root if root is not None else msg
+    # the buffer under all the names it is moved through (temporaries, a helper's parameter and return value)
+    aliases = {msg}
+    changed = True
+    while changed:
+        changed = False
+        for bb, i, s in b.stmts():
+            if s["k"] == "assign" and s["rv"]["k"] == "use" and not s["place"]["p"]:
+                src = op_place(s["rv"]["op"])
+                if src is None or src["p"]:
+                    continue
+                x, y = s["place"]["l"], src["l"]
+                if (x in aliases) != (y in aliases) and b.local_ty(x) == b.local_ty(y):
+                    aliases |= {x, y}
+                    changed = True
     # operations applied to the message buffer in the BinaryField arm
     applied = []
     for bb, t in b.calls():
@@ -429,7 +440,7 @@ def binary_rule(rep, prog, cfg):
         for bb2, i2, s2 in b.stmts():
             if s2["k"] == "assign" and s2["place"]["l"] == a0 and s2["rv"]["k"] == "ref" and not s2["rv"]["place"]["p"]:
                 base = s2["rv"]["place"]["l"]
-        if base == msg_root:
+        if base in aliases:
             applied.append((callee_names(t)[0], bb, t))
     allowed = {"bytes::bytes_mut::BytesMut::len", "bytes::buf::buf_impl::Buf::advance", "bytes::bytes_mut::BytesMut::advance",
                "bytes::bytes_mut::BytesMut::truncate", "bytes::bytes_mut::BytesMut::split_off", "bytes::bytes_mut::BytesMut::split_to"}
